@@ -73,6 +73,8 @@ MUTANTS = [
     ('evp-deflation-stacks-shared-between-tensors', 'scikit_tt/solvers/evp.py', "    stacks.previous_right  = [[None] * operator.order for _ in range(len(previous))]", "    stacks.previous_right  = stacks.previous_left", 'fn:evp.als', '*'),
     ('norm-unconjugated-inner-product', F, "            norm = np.linalg.norm(\n                tt_tensor.cores[0].reshape(tt_tensor.row_dims[0] * tt_tensor.col_dims[0] * tt_tensor.ranks[1]))", "            first_core = tt_tensor.cores[0].reshape(tt_tensor.row_dims[0] * tt_tensor.col_dims[0] * tt_tensor.ranks[1])\n            norm = np.sqrt(np.dot(first_core, first_core))", 'TT.norm', 'norm-is-a-real-number'),
     ('norm-via-vdot (harmless)', F, "            norm = np.linalg.norm(\n                tt_tensor.cores[0].reshape(tt_tensor.row_dims[0] * tt_tensor.col_dims[0] * tt_tensor.ranks[1]))", "            first_core = tt_tensor.cores[0].reshape(tt_tensor.row_dims[0] * tt_tensor.col_dims[0] * tt_tensor.ranks[1])\n            norm = np.sqrt(np.real(np.vdot(first_core, first_core)))", 'TT.norm', None),
+    ('arr-backward-qr-of-a-reshape-instead-of-a-transpose', 'scikit_tt/data_driven/regression.py', "            [_, q] = lin.rq(\n                solution.cores[i].reshape(solution.ranks[i], solution.row_dims[i] * solution.ranks[i + 1]),\n                overwrite_a=True, mode='economic', check_finite=False)\n", "            [q, _] = lin.qr(\n                solution.cores[i].reshape(solution.row_dims[i] * solution.ranks[i + 1], solution.ranks[i]),\n                overwrite_a=True, mode='economic', check_finite=False)\n            q = q.T\n", 'fn:__arr_update_core', '*'),
+    ('arr-backward-rq-via-qr-of-the-transpose (harmless)', 'scikit_tt/data_driven/regression.py', "            [_, q] = lin.rq(\n                solution.cores[i].reshape(solution.ranks[i], solution.row_dims[i] * solution.ranks[i + 1]),\n                overwrite_a=True, mode='economic', check_finite=False)\n", "            [q, _] = lin.qr(\n                solution.cores[i].reshape(solution.ranks[i], solution.row_dims[i] * solution.ranks[i + 1]).T,\n                mode='economic', check_finite=False)\n            q = q.T\n", 'fn:__arr_update_core', None),
 ]
 
 
